@@ -229,3 +229,11 @@ for _k, _extra in {
     "C19": "One io plugin object is falsy.",
 }.items():
     CHECKS[_k]["text"] += " " + _extra
+for _k, _extra in {
+    "C06": "Index-dependent full models (dispersed / shifted IRF under a global megacomplex).",
+    "C09": "In-situ fits whose datasets have different clp sets, a new label standing before a shared one.",
+    "C10": "The evaluations optimize() itself makes first are compared as well; walk over two decay megacomplexes sharing one initial concentration.",
+    "C13": "All data layouts; the cost is re-evaluated on the caller's own data objects.",
+    "C17": "Input data loaded from files; loaded datasets must name the file inside the folder they were loaded from.",
+}.items():
+    CHECKS[_k]["text"] += " " + _extra
